@@ -547,3 +547,125 @@ def prov_params(prov):
 
 def prov_attrs(prov):
     return {p[1] for p in prov if p[0] == 'attr'}
+
+
+def _uses_of(node):
+    """Name loads evaluated by the CFG node itself (header only for compound
+    statements; nested function / lambda / comprehension scopes excluded for
+    their own bound names)."""
+    a = node.ast
+    if a is None:
+        return []
+    if node.kind == 'test':
+        roots = [a.test] if hasattr(a, 'test') else []
+    elif node.kind == 'iter':
+        roots = [a.iter]
+    elif node.kind == 'except':
+        roots = [a.type] if getattr(a, 'type', None) is not None else []
+    elif node.kind == 'stmt':
+        if isinstance(a, (ast.FunctionDef, ast.AsyncFunctionDef)):
+            roots = list(a.args.defaults) + [d for d in a.args.kw_defaults if d is not None] + list(a.decorator_list)
+        elif isinstance(a, ast.ClassDef):
+            roots = list(a.bases) + list(a.decorator_list)
+        elif isinstance(a, (ast.With, ast.AsyncWith)):
+            roots = [it.context_expr for it in a.items]
+        elif isinstance(a, (ast.If, ast.While, ast.For, ast.Try)):
+            roots = []
+        elif isinstance(a, ast.AugAssign):
+            roots = [a.value, a.target]
+        else:
+            roots = [a]
+    else:
+        roots = []
+    out = []
+
+    def walk(e, bound):
+        if isinstance(e, (ast.Lambda,)):
+            # the body runs when the lambda is called, not here
+            for d in list(e.args.defaults) + [d for d in e.args.kw_defaults if d is not None]:
+                walk(d, bound)
+            return
+        if isinstance(e, (ast.FunctionDef, ast.AsyncFunctionDef, ast.ClassDef)):
+            return
+        if isinstance(e, (ast.ListComp, ast.SetComp, ast.GeneratorExp, ast.DictComp)):
+            b2 = set(bound)
+            for i, g in enumerate(e.generators):
+                walk(g.iter, b2 if i else bound)
+                b2 |= set(_targets(g.target))
+                for c in g.ifs:
+                    walk(c, b2)
+            if isinstance(e, ast.DictComp):
+                walk(e.key, b2)
+                walk(e.value, b2)
+            else:
+                walk(e.elt, b2)
+            return
+        if isinstance(e, ast.Name):
+            if isinstance(e.ctx, ast.Load) and e.id not in bound:
+                out.append(e)
+            elif isinstance(e.ctx, ast.Store) and isinstance(a, ast.AugAssign) and e is a.target and e.id not in bound:
+                out.append(e)
+            return
+        for c in ast.iter_child_nodes(e):
+            walk(c, bound)
+    for r in roots:
+        walk(r, frozenset())
+    return out
+
+
+def possibly_undefined(func_node):
+    """
+    Definite-assignment analysis: (name node, CFG node) for every read of a
+    local variable that some CFG path from the function entry reaches
+    without an assignment (UnboundLocalError on that path).  Names that are
+    never assigned in the function (globals, builtins, closure variables) and
+    names declared global / nonlocal are not local.  Exception edges out of a
+    try body are part of the CFG.
+    """
+    cfg, rd = analyse(func_node)
+    gen = {n: {nm for nm, _ in defs_of(n)} for n in cfg.nodes}
+    for n in cfg.nodes:
+        # named expressions bind too
+        a = n.ast
+        if a is not None and n.kind in ('stmt', 'test', 'iter'):
+            root = a.test if n.kind == 'test' and hasattr(a, 'test') else a.iter if n.kind == 'iter' else a
+            if n.kind == 'stmt' and isinstance(a, (ast.If, ast.While, ast.For, ast.Try, ast.With, ast.FunctionDef, ast.ClassDef)):
+                continue
+            for x in ast.walk(root):
+                if isinstance(x, ast.NamedExpr) and isinstance(x.target, ast.Name):
+                    gen[n].add(x.target.id)
+    locals_ = set()
+    for g in gen.values():
+        locals_ |= g
+    nonlocal_ = set()
+    for x in ast.walk(func_node):
+        if isinstance(x, (ast.Global, ast.Nonlocal)):
+            nonlocal_ |= set(x.names)
+    locals_ -= nonlocal_
+    params = set(rd.params)
+    TOP = locals_ | params
+    IN = {n: set(TOP) for n in cfg.nodes}
+    OUT = {n: set(TOP) for n in cfg.nodes}
+    IN[cfg.entry] = set()
+    OUT[cfg.entry] = set(params)
+    work = [n for n in cfg.nodes if n is not cfg.entry]
+    while work:
+        n = work.pop()
+        preds = [p for p, _ in n.pred]
+        new_in = set(TOP)
+        for p in preds:
+            new_in &= OUT[p]
+        if not preds:
+            new_in = set(TOP)      # unreachable
+        new_out = new_in | gen[n]
+        if new_in != IN[n] or new_out != OUT[n]:
+            IN[n], OUT[n] = new_in, new_out
+            for s, _ in n.succ:
+                if s not in work and s is not cfg.entry:
+                    work.append(s)
+    out = []
+    for n in cfg.nodes:
+        for u in _uses_of(n):
+            if u.id in locals_ and u.id not in params and u.id not in IN[n]:
+                out.append((u, n))
+    return out
